@@ -8,7 +8,7 @@ from .. import simcheck
 def main(tier, seed):
     rep = Report("C02", tier, seed)
     rep.cov["rule"] = ("F0: BFS to fixpoint over (operator states, histogram) of the real PipelineRuntimeStatus for every DAG on <=3 operators, "
-                       "every request (operator,target) in every state; plus all request sequences to a fixed depth without merging. "
+                       "every request (operator,target) in every state; the same BFS with a history-sensitive key (what each operator has been through), so that hidden memory inside the object cannot hide behind state merging; plus all request sequences to a fixed depth without merging. "
                        "non-trivial = distinct (DAG, state) pairs in which at least one request was refused and one accepted")
     ds = f0.dags(3)
     depth = 3 if tier == "quick" else 4
@@ -22,6 +22,16 @@ def main(tier, seed):
         legal_edges |= r["edges"]
         rep.cov["evaluations"] += r["transitions"]
     rep.part("F0-bfs", dags=len(ds), states=sum(len(r["states"]) for r in res), accepted_edge_kinds=sorted(map(list, legal_edges)))
+    # history-sensitive BFS: same requests, states separated by what each operator has been through
+    q = tier == "quick"
+    resh = pmap(lambda d: f0.bfs_hist(d, edges=(len(d) <= 2 or not q)), ds)
+    for d, r in zip(ds, resh):
+        rep.cov["transitions"] += r["transitions"]
+        rep.cov["evaluations"] += r["transitions"]
+        rep.add_violations(r["violations"])
+        rep.add_states({(str(d), "h", s) for s in r["states"]})
+    rep.part("F0-bfs-history-sensitive", key="visible state + per operator the set of state changes made so far (<=2 operators" + (")" if not q else "; 3 operators: the set of states visited)"),
+             states=sum(len(r["states"]) for r in resh), longest_shortest_history=max(r["max_history"] for r in resh))
     res2 = pmap(lambda d: f0.stateless(d, depth), ds)
     extra = 0
     for d, r, b in zip(ds, res2, res):
